@@ -195,6 +195,62 @@ theorem C18_merge_allowed (allowed : Nat → Bool) (n : Node) (rs : List PushSta
     · exact C18_suspect_allowed allowed acc.1 _ _ h
     · exact C18_dead_allowed allowed acc.1 _ _ h
 
+/-- every environment verdict inside an operation is the allow-list's verdict on the claimed address -/
+def opHonest (allowed : Nat → Bool) : Op → Prop
+  | .alive a _ env => env.ipAllowed = allowed a.addr
+  | .merge rs _ => ∀ r ∈ rs, r.ipAllowed = allowed r.addr
+  | .update a _ _ _ env => env.ipAllowed = allowed a
+  | _ => True
+
+/-- **allowed_inv (one step of any kind).** -/
+theorem C18_step_allowed (allowed : Nat → Bool) (n : Node) (op : Op) (hinv : AllAllowed allowed n)
+    (hop : opHonest allowed op) : AllAllowed allowed (step n op).1 := by
+  cases op with
+  | alive a b env => exact C18_alive_allowed allowed n a false b env hinv hop
+  | suspect c env => exact C18_suspect_allowed allowed n c env hinv
+  | dead c env => exact C18_dead_allowed allowed n c env hinv
+  | merge rs now => exact C18_merge_allowed allowed n rs now hinv hop
+  | fire node ca env =>
+    simp only [step, timerFire]
+    cases lookup n.recs node with
+    | none => exact hinv
+    | some state =>
+      simp only
+      split
+      · exact C18_dead_allowed allowed n _ env hinv
+      · exact hinv
+  | reap =>
+    intro r hr
+    simp only [step, reap] at hr
+    exact hinv r (List.mem_filter.mp hr).1
+  | update a p m v env =>
+    simp only [step, updateNode]
+    exact C18_alive_allowed allowed { n with selfInc := (n.selfInc + 1) % u32 } _ true true env hinv hop
+  | leave env =>
+    simp only [step, leave]
+    split
+    · exact hinv
+    · cases lookup n.recs n.cfg.self with
+      | none => exact hinv
+      | some state => simp only; exact C18_dead_allowed allowed { n with hasLeft := true } _ env hinv
+  | age name =>
+    intro r hr
+    simp only [step, ageRec, List.mem_map] at hr
+    obtain ⟨x, hx, rfl⟩ := hr
+    split <;> exact hinv x hx
+
+/-- **allowed_inv (all histories).** With an allow-list configured, after any sequence of
+operations by any carrier (direct alive claims, push/pull entries, address changes, name reclaims,
+suspicion / death / departure traffic, reaping, local API calls) every record the node holds - and
+therefore every member `Members()` lists - has an allowed address. -/
+theorem C18_history (allowed : Nat → Bool) (n : Node) (ops : List Op) (hinv : AllAllowed allowed n)
+    (hops : ∀ op ∈ ops, opHonest allowed op) :
+    AllAllowed allowed (ops.foldl (fun n op => (step n op).1) n) := by
+  induction ops generalizing n with
+  | nil => exact hinv
+  | cons op ops ih =>
+    exact ih _ (C18_step_allowed allowed n op hinv (hops op (by simp))) (fun o ho => hops o (by simp [ho]))
+
 /-- a join event only ever announces the (allowed) address of the claim that caused it -/
 theorem C18_alive_join_allowed (n : Node) (a : AliveMsg) (nt b : Bool) (env : Env)
     (nm : String) (ad p m : Nat) (hself : a.node ≠ n.cfg.self)
